@@ -30,6 +30,8 @@ SPECS = {
     "numbers": 'grammar m;\nNUM = $NUMBER;\nstart = NUM {"," NUM};\n',
     "many": 'grammar many;\nA1 = /a+/;\nB1 = /b+c?/;\nC1 = /[x-z]{2,3}/;\nstart = A1 B1 C1 "(" ")" "[" "]" "{" "}" ";" "=" "|" "<" ">" "~" "^" "%" "#" "@" "!" "?" ":" "." "," "-" "*" "/" "&";\n',
     "shadowed": 'grammar s;\nKW = /i[f]/;\nID = /[a-z]+/;\nstart = KW "if" ID | "x";\n',
+    "nullable": 'grammar nl;\nNUM = /[0-9]*/;\nID = /[a-c]+/;\nstart = {NUM | ID | "if"};\n',
+    "nullable2": 'grammar nm;\nOPT = /(ab)*/;\nXS = /x?y?/;\nstart = OPT XS;\n',
     "tab-newline": 'grammar t;\nTABS = /\\x09+/;\nNL = /\\x0A/;\nstart = TABS NL;\n',
 }
 
